@@ -293,8 +293,6 @@ class FileSystem(object):
             link = os.path.normpath(os.path.join(os.path.dirname(path), link_target))
             if follow_link:
                 out_path = self.resolve_path(link)
-            else:
-                out_path = link
         return out_path
 
     def get_path_inode(self, real_path):
